@@ -1,7 +1,7 @@
 (* C02 — embed: result = calling outer, which forwards *args/**kwargs to inner. *)
 From Sigtools.Model Require Import Base Bind Roles Algebra.
 From Sigtools.Model Require Import Universe.
-From Sigtools.Proofs Require Import SmallModel Basics Deciders SweepDefs SweepDefs2 Bounded2 MergeNeutral SweepDefs3 Bounded3 EmbedSound EmbedSoundAssoc.
+From Sigtools.Proofs Require Import SmallModel Basics Deciders SweepDefs SweepDefs2 Bounded2 MergeNeutral SweepDefs3 Bounded3 EmbedSound EmbedSoundAssoc ForwardsSound EmbedChainN.
 
 (* every result of embed went through the validating constructor *)
 Theorem C02_wf ss uva uvk r : embed ss uva uvk = Ok r -> validate (params r) = true.
@@ -133,4 +133,23 @@ Print Assumptions C02_assoc_error_clause_refuted.
 Theorem C02_sound3_partial : forall (a b c : sigT) (uva uvk : bool) (ab r : sigT) (c0 : call), valid_sig (params a) = true -> valid_sig (params b) = true -> valid_sig (params c) = true -> embed [a; b] uva uvk = Ok ab -> embed [a; b; c] uva uvk = Ok r -> noncolliding c0 (params r) [params ab; params c] = true -> noncolliding c0 (params ab) [params a; params b] = true -> accepts (params r) c0 = true -> chain (params ab) (params c) uva uvk 0 [] c0 = true /\ chain (params a) (params b) uva uvk 0 [] c0 = true.
 Proof. exact @EmbedSoundAssoc.C02_sound3_partial. Qed.
 Print Assumptions C02_sound3_partial.
+
+
+(* ---- the flat n-ary chain: the surplus of embed [a;b] is the surplus of b on the surplus of a; soundness and
+   exactness of embed of any number of signatures against chain_n (Proofs/EmbedChainN.v) ---- *)
+Theorem C02_surplus_embed2 : forall (a b : sigT) (uva uvk : bool) (ab : sigT) (c : call), valid_sig (params a) = true -> valid_sig (params b) = true -> embed [a; b] uva uvk = Ok ab -> noncolliding c (params ab) [params a; params b] = true -> accepts (params a) c = true -> surplus (params ab) uva uvk c = surplus (params b) uva uvk (surplus (params a) uva uvk c).
+Proof. exact @EmbedChainN.surplus_embed2. Qed.
+Print Assumptions C02_surplus_embed2.
+
+Theorem C02_chain_sound : forall (rest : list sigT) (a : sigT) (uva uvk : bool) (r : sigT) (c : call), valid_sig (params a) = true -> Forall (fun s : sigT => valid_sig (params s) = true) rest -> embed (a :: rest) uva uvk = Ok r -> levels a rest uva uvk c -> accepts (params r) c = true -> chain_n (map params (a :: rest)) uva uvk c = true.
+Proof. exact @EmbedChainN.C02_chain_sound. Qed.
+Print Assumptions C02_chain_sound.
+
+Theorem C02_chain_exact : forall (rest : list sigT) (a : sigT) (uva uvk : bool) (r : sigT) (c : call), valid_sig (params a) = true -> Forall (fun s : sigT => valid_sig (params s) = true) rest -> embed (a :: rest) uva uvk = Ok r -> levels_kept a rest uva uvk c -> accepts (params r) c = chain_n (map params (a :: rest)) uva uvk c.
+Proof. exact @EmbedChainN.C02_chain_exact. Qed.
+Print Assumptions C02_chain_exact.
+
+Theorem C02_sound3 : forall (a b c : sigT) (uva uvk : bool) (ab r : sigT) (c0 : call), valid_sig (params a) = true -> valid_sig (params b) = true -> valid_sig (params c) = true -> embed [a; b] uva uvk = Ok ab -> embed [a; b; c] uva uvk = Ok r -> noncolliding c0 (params ab) [params a; params b] = true -> noncolliding c0 (params r) [params ab; params c] = true -> accepts (params r) c0 = true -> accepts (params a) c0 = true /\ accepts (params b) (surplus (params a) uva uvk c0) = true /\ accepts (params c) (surplus (params b) uva uvk (surplus (params a) uva uvk c0)) = true.
+Proof. exact @EmbedChainN.C02_sound3. Qed.
+Print Assumptions C02_sound3.
 
